@@ -305,8 +305,26 @@ def _c04_requote_list_format():
     return hits[0] if hits else None
 
 
+def _c17_getstate_while_first_render():
+    """thread 0 pickles a template that is not compiled yet and is stopped after k source lines of the package, thread 1
+    renders it (the first render compiles it), thread 0 goes on (deterministic: harness/sched.py)"""
+    import os
+    import pickle
+    import DocumentTemplate
+    import sched
+    pkg = os.path.dirname(DocumentTemplate.__file__) + os.sep
+    for k in range(0, 30):
+        t = DocumentTemplate.HTML('x<dtml-var a>')
+        results, _ = sched.run_threads([lambda: pickle.dumps(t), lambda: t(a=1)], [(0, k), (1, sched.INF), (0, sched.INF)], {}, pkg)
+        if results[0][0] == 'raise' and results[1] == ('ok', 'x1'):
+            return {'input': "HTML('x<dtml-var a>'): pickle.dumps(t) stopped after %d lines inside the package, t(a=1) in another "
+                             "thread, pickle.dumps continues" % k, 'pickling': results[0][1], 'render': results[1][1]}
+    return None
+
+
 PROBES = {
     'C04': [('C04-requote-list-format', _c04_requote_list_format)],
+    'C17': [('C17-getstate-while-first-render', _c17_getstate_while_first_render)],
     'C13': [('C13-locale-none', _c13_locale_none)],
     'C05': [('C05-tree-sort-key', _c05_tree_sort_key), ('C05-tree-id', _c05_tree_id),
             ('C05-tree-expand-all', _c05_tree_expand_all), ('C05-var-url', _c05_var_url),
